@@ -19,8 +19,13 @@ use std::io::Cursor;
 
 pub const STATES: [&str; 6] = ["await-demand", "await-sync", "await-cooperate", "await-granted", "await-fontmap", "active"];
 
-pub const KINDS: [&str; 20] = [
+pub const KINDS: [&str; 25] = [
     "demand-active",
+    "demand-active-descriptor-utf8",
+    "demand-active-descriptor-ff",
+    "demand-active-descriptor-long",
+    "fp-palette",
+    "fp-every-update-code",
     "synchronize",
     "control-cooperate",
     "control-granted",
@@ -52,6 +57,43 @@ pub const MULTI: [&str; 6] = ["set-error-info", "deactivate-all", "synchronize",
 pub fn build_kind(p: &Profile, kind: &str, sid: u32) -> (B, Wrap) {
     match kind {
         "demand-active" => (proto::demand_active(p, sid), Wrap::Sdi),
+        "demand-active-descriptor-utf8" | "demand-active-descriptor-ff" | "demand-active-descriptor-long" => {
+            // free text of other lengths and contents than Windows' "RDP\0"
+            let mut p2 = p.clone();
+            p2.source_descriptor = match kind {
+                "demand-active-descriptor-utf8" => {
+                    let mut v = vec![b'a'; 31];
+                    v.extend_from_slice("\u{e9}\u{4e2d}\u{1f511}xyz".as_bytes());
+                    v
+                }
+                "demand-active-descriptor-ff" => {
+                    let mut v = vec![b'b'; 30];
+                    v.extend_from_slice(&[0xff, 0xfe, 0x80, 0xc3]);
+                    v
+                }
+                _ => "\u{e9}".as_bytes().iter().cycle().take(600).cloned().collect(),
+            };
+            (proto::demand_active(&p2, sid), Wrap::Sdi)
+        }
+        "fp-palette" => {
+            // fast-path palette update: updateType 2, pad, numberColors, 3 bytes per entry
+            let mut d = B::new();
+            d.u16le("pal.updateType", 2).u16le("pal.pad2Octets", 0).u32le("pal.numberColors", 4).bytes("pal.entries", &[1, 2, 3, 4, 5, 6, 7, 8, 9, 10, 11, 12]);
+            (proto::fp_update(2, &d), Wrap::FastPath { sec: 0, long: false })
+        }
+        "fp-every-update-code" => {
+            // one update of every code 0..15 with a small plausible body, in one PDU
+            let mut b = B::new();
+            for code in 0u8..16 {
+                if code == 1 {
+                    continue;
+                }
+                let mut d = B::new();
+                d.u16le(&format!("u{}.a", code), code as u16).u16le(&format!("u{}.b", code), 0).u32le(&format!("u{}.n", code), 1).bytes(&format!("u{}.rest", code), &[0, 0, 0, 0]);
+                b.nest(&format!("upd{}", code), &proto::fp_update(code, &d));
+            }
+            (b, Wrap::FastPath { sec: 0, long: true })
+        }
         "synchronize" => (proto::synchronize(p, sid, p.user_id), Wrap::Sdi),
         "control-cooperate" => (proto::control(p, sid, 4, 0, 0), Wrap::Sdi),
         "control-granted" => (proto::control(p, sid, 2, p.user_id, 0x3ea), Wrap::Sdi),
@@ -193,7 +235,7 @@ pub fn to_state(state: usize, tls: bool) -> Result<Session, String> {
 
 fn wrap_kind(kind: &str) -> Wrap {
     match kind {
-        "fp-bitmap-comprhdr" => Wrap::FastPath { sec: 0, long: true },
+        "fp-bitmap-comprhdr" | "fp-every-update-code" => Wrap::FastPath { sec: 0, long: true },
         k if k.starts_with("fp-") => Wrap::FastPath { sec: 0, long: false },
         _ => Wrap::Sdi,
     }
@@ -276,15 +318,23 @@ pub fn run_plan_ex(plan: &Plan, aftermath: bool) -> Result<Observed, String> {
 }
 
 fn judge(plan: &Plan, o: &Observed, rep: &mut Report) {
+    judge_with(plan, o, rep, plan.to_json())
+}
+
+fn judge_with(plan: &Plan, o: &Observed, rep: &mut Report, replay: Value) {
     rep.eval();
     rep.hist(&o.outcome);
     let entry = format!("{}/{}", STATES[plan.state], plan.kind);
     if let Some(p) = &o.panic {
-        rep.violation(format!("C06/{}/{}", entry, p.sig()), format!("state {} fault {} ({}): {} at {}:{}", STATES[plan.state], plan.mutant.class, plan.layer, p.msg, p.file, p.line), plan.to_json());
+        rep.violation(format!("C06/{}/{}", entry, p.sig()), format!("state {} fault {} ({}): {} at {}:{}", STATES[plan.state], plan.mutant.class, plan.layer, p.msg, p.file, p.line), replay.clone());
     }
     if let Some(d) = alloc_violation(&o.alloc, o.server_bytes) {
-        rep.violation(format!("C06/{}/alloc-out-of-proportion", entry), format!("fault {}: {}", plan.mutant.class, d), plan.to_json());
+        rep.violation(format!("C06/{}/alloc-out-of-proportion", entry), format!("fault {}: {}", plan.mutant.class, d), replay.clone());
     }
+    if o.alloc.max_stack_depth > crate::props::c05::STACK_LIMIT {
+        rep.violation(format!("C06/{}/stack-depth-grows-with-input", entry), format!("fault {}: the stack was {} bytes deep at a transport call (limit {})", plan.mutant.class, o.alloc.max_stack_depth, crate::props::c05::STACK_LIMIT), replay.clone());
+    }
+    rep.max("deepest_stack_at_transport_call_bytes", o.alloc.max_stack_depth as f64);
     rep.max("largest_allocation_bytes", o.alloc.max_request as f64);
     rep.set("state_kind_pairs", entry);
 }
@@ -301,7 +351,7 @@ fn all_plans(seed: u64, quick: bool) -> Vec<Plan> {
             plans.push(Plan { state, kind: kind.to_string(), layer: "inner", via_tls: false, mutant: Mutant { class: "valid".into(), bytes: b.v.clone(), at: 0 } });
             let mut r = Rng::derive(seed, "C06-f", state as u64, fnv(kind.as_bytes()));
             // the full fault set in the state that parses this kind most deeply and in the active state; a light set elsewhere
-            let deep = state == 5 || matches!((state, *kind), (0, "demand-active") | (1, "synchronize") | (2, "control-cooperate") | (3, "control-granted") | (4, "font-map"));
+            let deep = state == 5 || matches!((state, *kind), (0, "demand-active") | (0, "demand-active-descriptor-utf8") | (0, "demand-active-descriptor-ff") | (0, "demand-active-descriptor-long") | (1, "synchronize") | (2, "control-cooperate") | (3, "control-granted") | (4, "font-map"));
             let ms = fault::single_faults(&b, &mut r, !deep || quick && !deep);
             for (i, m) in ms.into_iter().enumerate() {
                 if !deep && i % 4 != 0 {
@@ -414,7 +464,46 @@ fn three_byte_plan(idx: u64) -> Plan {
     Plan { state: 5, kind: "short-string".into(), layer, via_tls: false, mutant: Mutant { class: "short-string".into(), bytes: s, at: 0 } }
 }
 
+const FLOOD: usize = 4000;
+const FLOOD_KINDS: [&str; 8] = ["set-error-info", "unknown-data", "synchronize", "control-cooperate", "font-map", "fp-unknown", "fp-mixed", "demand-active"];
+
+/// thousands of copies of a PDU the client ignores or skips in the given state, then a bitmap: everything is read with as
+/// many read calls as the application cares to make; stack depth, allocation and termination are watched
+fn run_flood(state: usize, kind: &str) -> Result<Observed, String> {
+    let mut s = to_state(state, false)?;
+    let (b, w) = build_kind(&s.profile, kind, SID);
+    let frame = s.server.with(|sv| sv.wrap(&b, w));
+    let mut bytes = Vec::with_capacity(frame.v.len() * FLOOD);
+    for _ in 0..FLOOD {
+        bytes.extend_from_slice(&frame.v);
+    }
+    s.server.with(|sv| sv.push_bytes("flood", &bytes, true));
+    let (bm, wm) = build_kind(&s.profile, "fp-bitmap", SID);
+    s.push("fp-bitmap", &bm, wm);
+    let (res, alloc) = mon::observed(|| {
+        let mut errors = 0usize;
+        for _ in 0..FLOOD + 8 {
+            if s.server.with(|sv| sv.out.is_empty()) {
+                break;
+            }
+            if s.client.read(|_| {}).is_err() {
+                errors += 1;
+                if errors > 16 {
+                    break;
+                }
+            }
+        }
+        format!("flood-read:{}", if errors == 0 { "Ok" } else { "Err" })
+    });
+    let n = bytes.len();
+    Ok(match res {
+        Ok(o) => Observed { outcome: o, panic: None, alloc, server_bytes: n, consumed_fault: true },
+        Err(p) => Observed { outcome: "panic".into(), panic: Some(p), alloc, server_bytes: n, consumed_fault: true },
+    })
+}
+
 pub fn run(cfg: &Cfg) -> Report {
+    crate::tls::prewarm(false);
     let seed = cfg.seed;
     let mut total = Report::new();
     if cfg.wants(0) {
@@ -459,7 +548,6 @@ pub fn run(cfg: &Cfg) -> Report {
     }
     if cfg.wants(2) {
         // seeded random corruption and splices of two PDUs
-        let p = session::full_profile();
         let n = cfg.n(60_000, 4_000_000);
         let rep = par_run(cfg, n, 64, |idx, rep| {
             mon::begin_case(6, 2, idx, seed);
@@ -472,6 +560,28 @@ pub fn run(cfg: &Cfg) -> Report {
             }
         });
         total.count("random_corruptions", n);
+        total.merge(rep);
+    }
+    if cfg.wants(5) {
+        let n = (6 * FLOOD_KINDS.len()) as u64;
+        let rep = par_run(cfg, n, 1, |idx, rep| {
+            mon::begin_case(6, 5, idx, seed);
+            let (state, kind) = ((idx % 6) as usize, FLOOD_KINDS[(idx / 6) as usize]);
+            let plan = Plan { state, kind: kind.to_string(), layer: "frame", via_tls: false, mutant: Mutant { class: format!("flood:{}x", FLOOD), bytes: vec![], at: 0 } };
+            match run_flood(state, kind) {
+                Ok(o) => {
+                    rep.nontrivial(idx ^ 0xF100D);
+                    let mut j = plan.to_json();
+                    j["flood"] = json!([state, kind]);
+                    // judge with a replay descriptor that regenerates the flood
+                    let mut p2 = plan.clone();
+                    p2.mutant.class = format!("flood:{}x{}", FLOOD, kind);
+                    judge_with(&p2, &o, rep, j);
+                }
+                Err(e) => rep.selfcheck_fail(format!("could not reach state {}: {}", state, e)),
+            }
+        });
+        total.count("flood_cases", n);
         total.merge(rep);
     }
     if cfg.wants(3) {
@@ -527,9 +637,27 @@ pub fn replay(cfg: &Cfg, v: &Value) -> Report {
                 }
             }
             2 => random_plan(a[3], a[2]),
+            5 => {
+                let (state, kind) = ((a[2] % 6) as usize, FLOOD_KINDS[(a[2] / 6) as usize % FLOOD_KINDS.len()]);
+                let plan = Plan { state, kind: kind.to_string(), layer: "frame", via_tls: false, mutant: Mutant { class: format!("flood:{}x{}", FLOOD, kind), bytes: vec![], at: 0 } };
+                match run_flood(state, kind) {
+                    Ok(o) => judge_with(&plan, &o, &mut rep, json!({"flood": [state, kind]})),
+                    Err(e) => rep.selfcheck_fail(e),
+                }
+                return rep;
+            }
             4 => three_byte_plan(a[2]),
             _ => short_plan(a[2], fault::short_string_count(2)),
         }
+    } else if let Some(f) = v.get("flood").and_then(|f| f.as_array()) {
+        let state = f[0].as_u64().unwrap_or(5) as usize;
+        let kind = f[1].as_str().unwrap_or("set-error-info").to_string();
+        let plan = Plan { state, kind: kind.clone(), layer: "frame", via_tls: false, mutant: Mutant { class: format!("flood:{}x{}", FLOOD, kind), bytes: vec![], at: 0 } };
+        match run_flood(state, &kind) {
+            Ok(o) => judge_with(&plan, &o, &mut rep, v.clone()),
+            Err(e) => rep.selfcheck_fail(e),
+        }
+        return rep;
     } else {
         Plan::from_json(v)
     };
